@@ -3,6 +3,8 @@
   Property theorems only.
 -/
 import Djc.Proofs.Render
+import Djc.Proofs.Calm
+import Djc.Spec.Render
 namespace Djc.Props.C05
 open Djc.Tpl Djc.Render Djc.Proofs.Render
 
@@ -204,5 +206,43 @@ example :
     let w0 : World := holdSelfW 1 { ({} : World) with provideCache := [(1, [])] }
     let ctx : Ctx := [[], [(injectPrefix ++ "pk".toList, .provRef 1)]]
     alHas 1 (unregisterRefW 2 (registerRefW ctx 2 w0)).2.provideCache = true := by decide
+
+
+/-- **Provided values never become template variables — for the whole pipeline on the provider fragment.**  A page
+built from `{% provide %}` blocks (nested to any depth, in loops) around text, `{{ }}`, `{% if %}`, `{% for %}`,
+`{% with %}` and elements, whose expressions start from names Django accepts (no leading `_DJC_INJECT__`): the model
+of the code — which pushes the provider key as a context layer and keeps the payload in `provide_cache` — prints
+*exactly* what the reading of the property prints, where providers are a separate chain and touch no variable; and
+they fail alike.  All fuels, pages, contexts, worlds. -/
+theorem provided_not_variables_pipeline (env : Env) (fuel : Nat) (page : List Node) (ctx : Ctx)
+    (e : Djc.SpecRender.SEnv) (w : World) (s : Djc.SpecRender.SState)
+    (hp : Djc.Proofs.Calm.calmL page = true) (ho : Djc.Proofs.Calm.okNamesL page = true)
+    (hc : Djc.Proofs.Plain.ctxFree ctx = true) (hf : Djc.Proofs.Calm.Fresh w)
+    (he : e.vars = ctx) (hs : s.steps = w.steps) :
+    match (renderNodes env fuel page ctx).run.run w with
+    | (.ok toks, w') => (Djc.SpecRender.sNodes env fuel page e).run s = .ok (toks, { s with steps := w'.steps })
+    | (.error err, _) => (Djc.SpecRender.sNodes env fuel page e).run s = .error err := by
+  subst he
+  obtain ⟨k, h⟩ := (Djc.Proofs.Calm.model_calm env fuel).1 page e.vars e.vars w hp ho hc (Djc.Proofs.Calm.sameVars_refl _) hf
+  rw [h, (Djc.Proofs.Calm.spec_calm env fuel).1 page e s hp hc, hs]
+  rcases Djc.Proofs.Calm.cNodes env.maxSteps fuel page e.vars w.steps with ⟨r, st⟩
+  cases r <;> rfl
+
+/-- **What a provider provides is invisible to code that does not inject**: two providers of the same key with
+different keyword arguments around the same body print the same, in every context and world. -/
+theorem payload_invisible_without_inject (env : Env) (fuel : Nat) (key : Str) (kw1 kw2 : List (Str × Expr))
+    (body : List Node) (ctx : Ctx) (w : World)
+    (hp : Djc.Proofs.Calm.calmL body = true) (ho : Djc.Proofs.Calm.okNamesL body = true)
+    (hc : Djc.Proofs.Plain.ctxFree ctx = true) (hf : Djc.Proofs.Calm.Fresh w) :
+    ((renderNode env fuel (.provide key kw1 body) ctx).run.run w).1 =
+      ((renderNode env fuel (.provide key kw2 body) ctx).run.run w).1 := by
+  obtain ⟨k1, h1⟩ := (Djc.Proofs.Calm.model_calm env fuel).2.2 (.provide key kw1 body) ctx ctx w
+    (by simpa [Djc.Proofs.Calm.calm] using hp) (by simpa [Djc.Proofs.Calm.okNames] using ho) hc (Djc.Proofs.Calm.sameVars_refl _) hf
+  obtain ⟨k2, h2⟩ := (Djc.Proofs.Calm.model_calm env fuel).2.2 (.provide key kw2 body) ctx ctx w
+    (by simpa [Djc.Proofs.Calm.calm] using hp) (by simpa [Djc.Proofs.Calm.okNames] using ho) hc (Djc.Proofs.Calm.sameVars_refl _) hf
+  rw [h1, h2]
+  cases fuel with
+  | zero => simp [Djc.Proofs.Calm.asN, Djc.Proofs.Calm.cNode]
+  | succ n => simp [Djc.Proofs.Calm.asN, Djc.Proofs.Calm.cNode]
 
 end Djc.Props.C05
